@@ -192,6 +192,30 @@ class World(object):
             self.candsets[name] = build_candset(spec)
             self.cand_snap[name] = snapshot(self.candsets[name])
 
+    def retune(self, name, changes):
+        """The *caller* reconfigures one of its tokenizer objects between two
+        library calls (public py_stringmatching setters).  The model follows."""
+        tok = self.toks[name]
+        spec = self.tokspec[name]
+        for k, v in changes.items():
+            if k == 'qval':
+                tok.set_qval(v)
+            elif k == 'padding':
+                tok.set_padding(v)
+            elif k == 'return_set':
+                tok.set_return_set(v)
+            elif k == 'delims':
+                tok.set_delim_set(set(v))
+            else:
+                raise ValueError('retune %r' % (k,))
+            spec[k] = v
+        self.tok_cfg[name] = simtok.config_of(tok)
+
+    def apply_retunes(self, history, upto):
+        for op in history[:upto]:
+            if op.get('op') == 'retune':
+                self.retune(op['tok'], op['set'])
+
     def tok_mode(self, name):
         """Mode the model says the tokenizer is in (static: every normally
         returning call restores it)."""
